@@ -105,6 +105,7 @@ PARALLEL = [
     cfg("mem_b2_p2", batches=2, partitions=2),
     cfg("mem_b3_p8", batches=3, partitions=8, switches=["small_tables_partition"]),
     cfg("mem_b7_p16", batches=7, partitions=16, switches=["small_tables_partition"]),
+    cfg("mem_b40_p1", batches=40, keep_empty=True, partitions=1),
     cfg("pq_rg1_p4", layout="parquet", files=2, rg=1, partitions=4),
 ]
 MEMORY = [
